@@ -31,6 +31,7 @@ type config struct {
 
 type outcome struct {
 	Accepted  bool   `json:"accepted"`
+	Lenient   bool   `json:"accepted_by_the_gateway_loader_only,omitempty"` // the validator refused the directory, the gateway's own loader took it (skipping files)
 	LoadErr   string `json:"load_error,omitempty"`
 	Violation string `json:"violation,omitempty"`
 	Steps     int    `json:"steps"`
@@ -150,7 +151,17 @@ func run(c config) (o outcome) {
 	s, lerr := dir.Load()
 	if lerr != nil {
 		o.LoadErr = lerr.Error()
-		return o
+		if len(c.RawFlows) == 0 {
+			return o
+		}
+		// the second acceptor of the statement: the running gateway loads its directory without the validation
+		// mode and skips flow files it cannot use as long as some flow remains
+		phase = "load by the gateway's own loader"
+		gs, gerr := dir.LoadGateway()
+		if gerr != nil {
+			return o
+		}
+		s, o.Lenient = gs, true
 	}
 	o.Accepted = true
 	hs := c.filterHeaders()
@@ -372,6 +383,9 @@ func handle(r *ev.Recorder, c config) error {
 		return nil
 	}
 	o := run(c)
+	if o.Lenient {
+		r.Class("refused by the validator, loaded by the gateway (unusable files skipped)")
+	}
 	if o.Accepted {
 		r.Class("accepted")
 		r.ClassN("transactions", int64(o.Txns))
@@ -842,6 +856,12 @@ func TestRandomConfigs(t *testing.T) {
 			}
 			c.Flows = append(c.Flows, f)
 		}
+		// one configuration in four has a further flow file the gateway cannot use: not YAML at all, or YAML that
+		// breaks a rule of the schema (the validator refuses such a directory, the running gateway skips the file)
+		if rapid.IntRange(0, 3).Draw(t, "broken-file") == 0 {
+			c.RawFlows = map[string]string{"zbroken.yaml": rapid.SampledFrom(brokenFlowFiles).Draw(t, "broken")}
+			c.Tags = append(c.Tags, "unusable-flow-file")
+		}
 		for _, f := range c.Flows {
 			for _, cn := range append(append([]fg.Conn{}, f.Req...), f.Resp...) {
 				if cn.From.Proc == "Nope" || cn.To.Proc == "Nope" || cn.To.Flow == "ghostflow" {
@@ -853,6 +873,50 @@ func TestRandomConfigs(t *testing.T) {
 			t.Fatalf("%s", r.Fail(c, "%v", err))
 		}
 	})
+}
+
+const brokenTail = `flow:
+  request:
+    - from:
+        stream:
+          name: globalStream
+          at: start
+      to:
+        stream:
+          name: globalStream
+          at: end
+  response:
+    - from:
+        stream:
+          name: globalStream
+          at: start
+      to:
+        stream:
+          name: globalStream
+          at: end
+`
+
+var brokenFlowFiles = []string{
+	"name: [unclosed\n  - {",
+	"just a sentence, no mapping\n",
+	// no filter
+	"name: broken\nprocessors: {}\n" + brokenTail,
+	// no name
+	"filter:\n  url: h.com/p\nprocessors: {}\n" + brokenTail,
+	// a processor declared with an empty body
+	"name: broken\nfilter:\n  url: h.com/p\nprocessors:\n  P:\n" + brokenTail,
+	// a processor without its processor type
+	"name: broken\nfilter:\n  url: h.com/p\nprocessors:\n  P:\n    parameters: []\n" + brokenTail,
+	// a connection without `to`
+	"name: broken\nfilter:\n  url: h.com/p\nprocessors: {}\nflow:\n  request:\n    - from:\n        stream:\n          name: globalStream\n          at: start\n  response: []\n",
+	// a connection without `from`
+	"name: broken\nfilter:\n  url: h.com/p\nprocessors: {}\nflow:\n  request:\n    - to:\n        stream:\n          name: globalStream\n          at: end\n  response: []\n",
+	// no flow section at all
+	"name: broken\nfilter:\n  url: h.com/p\nprocessors: {}\n",
+	// a filter without a URL
+	"name: broken\nfilter:\n  method: [GET]\nprocessors: {}\n" + brokenTail,
+	// wrong types
+	"name: broken\nfilter: h.com/p\nprocessors: []\nflow: 7\n",
 }
 
 // Plain regression checks for the two defects found on the pinned tree and repaired by fix: commits.
